@@ -139,6 +139,7 @@ type cand struct {
 	Body    string
 	Headers map[string]string
 	Retry   float64 // relative retry-after as given by the provider
+	RetryK  string  // the response's own spelling of the retry-after header
 	Tag     string
 }
 
@@ -154,7 +155,13 @@ func newCand(c caseSpec, r *respSpec, now int64) *cand {
 		cd.Expiry = now + ttlNs(float64(c.Cfg.TTL))
 		return cd
 	}
-	v, ok := r.Headers[c.Cfg.RetryHeader]
+	// header names are case-insensitive: the response may spell the configured header differently
+	v, ok := "", false
+	for k, hv := range r.Headers {
+		if strings.EqualFold(k, c.Cfg.RetryHeader) {
+			v, ok, cd.RetryK = hv, true, k
+		}
+	}
 	if !ok {
 		return cd
 	}
@@ -223,7 +230,7 @@ func matches(c caseSpec, cd *cand, e *early, now int64) bool {
 		if !ok {
 			return false
 		}
-		if k != c.Cfg.RetryHeader {
+		if k != cd.RetryK {
 			if v != w {
 				return false
 			}
@@ -904,6 +911,7 @@ func genIntent(plugin string, big bool) *rapid.Generator[intent] {
 func genCase(t *rapid.T, plugin string, maxOps int) caseSpec {
 	c := caseSpec{Plugin: plugin}
 	big := false
+	respHdr := ""
 	if plugin == "caching" {
 		c.Cfg.TTL = rapid.SampledFrom(ttlPool).Draw(t, "ttl")
 		c.Cfg.MaxRecord = rapid.SampledFrom([]int{5500, 4000, 1 << 20}).Draw(t, "maxrecord")
@@ -915,7 +923,14 @@ func genCase(t *rapid.T, plugin string, maxOps int) caseSpec {
 		}), 0, 4, func(p pathSel) string { return p.Type + "/" + p.Path }).Draw(t, "paths")
 		c.Cfg.Paths = sel
 	} else {
-		c.Cfg.RetryHeader = rapid.SampledFrom([]string{"retry-after", "x-ratelimit-reset"}).Draw(t, "hdr")
+		c.Cfg.RetryHeader = rapid.SampledFrom([]string{"retry-after", "x-ratelimit-reset", "retry-after", "Retry-After", "X-RateLimit-Reset"}).Draw(t, "hdr")
+		// the proxy hands header names over in lower case: in one case of three the responses spell it that way
+		// whatever the policy says
+		if rapid.IntRange(0, 2).Draw(t, "resp-hdr-lower") == 0 {
+			respHdr = strings.ToLower(c.Cfg.RetryHeader)
+		} else {
+			respHdr = c.Cfg.RetryHeader
+		}
 		c.Cfg.RetryType = rapid.SampledFrom([]string{"relative", "relative", "absolute"}).Draw(t, "type")
 		c.Cfg.Relevant = rapid.SampledFrom([][]int{{429}, {429, 503}, {429, 503, 500}}).Draw(t, "relevant")
 	}
@@ -941,7 +956,7 @@ func genCase(t *rapid.T, plugin string, maxOps int) caseSpec {
 		if c.Cfg.RetryType == "relative" {
 			v := relPool[in.Retry%len(relPool)]
 			if v != "" {
-				rs.Headers[c.Cfg.RetryHeader] = v
+				rs.Headers[respHdr] = v
 				if f, err := strconv.ParseFloat(v, 64); err == nil {
 					expiries = append(expiries, now+ttlNs(f))
 				}
@@ -949,7 +964,7 @@ func genCase(t *rapid.T, plugin string, maxOps int) caseSpec {
 		} else {
 			d := absPool[in.Retry%len(absPool)]
 			abs := float64((baseNs+now)/sec) + d
-			rs.Headers[c.Cfg.RetryHeader] = strconv.FormatFloat(abs, 'f', -1, 64)
+			rs.Headers[respHdr] = strconv.FormatFloat(abs, 'f', -1, 64)
 			expiries = append(expiries, now+ttlNs(abs-float64((baseNs+now)/sec)))
 		}
 		return rs
